@@ -37,6 +37,10 @@ def cases(draw, closed_only, allow_verify):
         "corrupt": [],
         "jobs": draw(st.sampled_from([1, 1, 4])),
         # hash-state cache attached to the destination / source store (as DVC's cache and remotes have)
+        # route: hashfile.transfer() directly, or the index-level collect()+push() (closed by construction)
+        "via": draw(st.sampled_from(["transfer", "transfer", "push"])) if closed_only else "transfer",
+        # after the initial deliveries the destination is wiped externally while its index survives
+        "wipe": draw(st.sampled_from([False, False, False, True])),
         "dst_state": draw(st.booleans()),
         "src_state": draw(st.sampled_from([False, False, True])),
     }
@@ -54,9 +58,9 @@ def execute(case, ctx, d, monitor_closure=True):  # noqa: C901, PLR0912, PLR0915
     from dvc_objects.fs.local import LocalFileSystem
 
     from dvc_data.hashfile.build import build
-    from dvc_data.hashfile.db.index import ObjectDBIndex
     from dvc_data.hashfile.hash_info import HashInfo
     from dvc_data.hashfile.transfer import transfer
+    from dvc_data.index.index import DataIndexDirError
 
     o = Obs()
     fs = LocalFileSystem()
@@ -70,7 +74,11 @@ def execute(case, ctx, d, monitor_closure=True):  # noqa: C901, PLR0912, PLR0915
     if case.get("src_state"):
         o.states.append(ops.make_state(d, os.path.join(d, "src-state")))
         skw["state"] = o.states[-1]
+    if case["index"]:
+        dkw["tmp_dir"] = os.path.join(d, "idx")
+        os.makedirs(dkw["tmp_dir"], exist_ok=True)
     dst = ops.make_odb(case["dst_kind"], dst_root, **dkw)
+    via_push = case.get("via") == "push" and case["src_kind"] != "staging"
     staging_mode = case["src_kind"] == "staging"
     src = None if staging_mode else ops.make_odb(case["src_kind"], src_root, **skw)
 
@@ -113,16 +121,28 @@ def execute(case, ctx, d, monitor_closure=True):  # noqa: C901, PLR0912, PLR0915
     o.src = src
 
     # ---- destination initial contents (closed) ----------------------------------------------
+    from dvc_data.hashfile.db import get_index
+
+    index = get_index(dst) if case["index"] else None
+    ikw = {"dest_index": index} if index is not None else {}
     pre_src = ops.make_odb("local", os.path.join(d, "pre"))
     for t in tops:
         ops.stage_transfer(pre_src, t["path"])
     for idx in case["dst_init"]:
         t = tops[idx % len(tops)]
         ids = {HashInfo("md5", t["oid"])} | {HashInfo("md5", f) for f in t["files"]}
-        transfer(pre_src, dst, ids, shallow=True)
+        transfer(pre_src, dst, ids, shallow=True, **ikw)
     if file_ids:
         for idx in case["dst_files"]:
-            transfer(pre_src, dst, {HashInfo("md5", file_ids[idx % len(file_ids)])}, shallow=True)
+            transfer(pre_src, dst, {HashInfo("md5", file_ids[idx % len(file_ids)])}, shallow=True, **ikw)
+    o.wiped = False
+    if case.get("wipe") and ref.store_ids(dst_root):
+        # external wipe of the destination (remote gc / bucket emptied); a destination index survives
+        for _oid, pth in ref.walk_store(dst_root)[0].items():
+            os.chmod(pth, 0o644)
+            os.unlink(pth)
+        dst._dirs = None
+        o.wiped = True
 
     # ---- source mutilation ------------------------------------------------------------------
     o.src_removed = set()
@@ -167,12 +187,21 @@ def execute(case, ctx, d, monitor_closure=True):  # noqa: C901, PLR0912, PLR0915
     o.unloadable = case["form"] == "expand" and any(
         t["isdir"] and t["oid"] in o.src_removed for t in req_tops)
 
+    if via_push:
+        # the index-level push loads every tracked directory from the cache and always sends
+        # directories together with their files
+        o.unloadable = any(t["isdir"] and t["oid"] in o.src_removed for t in req_tops)
+        for t in req_tops:
+            o.requested.update(t["files"])
+        o.requested_expanded = set(o.requested)
+
+    # A destination index is re-validated against the store only by queries that name a directory (C12);
+    # a file-only request after an external wipe legitimately trusts the surviving index.
+    o.trusting_stale_index = bool(o.wiped and case["index"] and not any(t["isdir"] for t in req_tops))
+
     _, o.dst_before = ref.audit_local_store(dst_root)
     o.src_before = None if staging_mode else ref.audit_local_store(src_root)[1]
 
-    index = None
-    if case["index"]:
-        index = ObjectDBIndex(os.path.join(d, "idx"), "dst")
     o.index = index
 
     # fault indices point into the ids that have to move (so plans usually hit), else into all ids
@@ -189,7 +218,26 @@ def execute(case, ctx, d, monitor_closure=True):  # noqa: C901, PLR0912, PLR0915
         if br:
             o.closure_breaks.append((oid, br))
 
+    def do_push():
+        from dvc_data.hashfile.meta import Meta
+        from dvc_data.index import DataIndex, DataIndexEntry, ObjectStorage
+        from dvc_data.index.collect import collect
+        from dvc_data.index.push import push
+
+        idx = DataIndex()
+        for j, t in enumerate(req_tops):
+            key = (f"o{j}",)
+            idx[key] = DataIndexEntry(key=key, meta=Meta(isdir=True) if t["isdir"] else Meta(),
+                                      hash_info=HashInfo("md5", t["oid"]))
+        idx.storage_map.add_cache(ObjectStorage((), src))
+        idx.storage_map.add_remote(ObjectStorage((), dst))
+        data = collect([idx], "remote", push=True)
+        return push(data, jobs=case["jobs"])
+
     def do_transfer(inj):
+        if via_push:
+            o.push_counts.append(do_push())
+            return None
         kw = {"shallow": shallow, "jobs": case["jobs"], "verify": case["verify"]}
         if index is not None:
             kw["dest_index"] = index
@@ -199,13 +247,15 @@ def execute(case, ctx, d, monitor_closure=True):  # noqa: C901, PLR0912, PLR0915
 
     o.result = None
     o.raised = None
+    o.push_counts = []
+    o.via_push = via_push
     inj = Injector([dst_root], fail=fail, abort_at=case["abort_at"], monitor=monitor)
     with inj:
         try:
             o.result = do_transfer(inj)
         except Abort as exc:
             o.raised = exc
-        except FileNotFoundError as exc:
+        except (FileNotFoundError, DataIndexDirError) as exc:
             if not o.unloadable:
                 raise
             o.raised = exc
@@ -221,7 +271,7 @@ def execute(case, ctx, d, monitor_closure=True):  # noqa: C901, PLR0912, PLR0915
     with inj2:
         try:
             o.retry = do_transfer(inj2)
-        except FileNotFoundError as exc:
+        except (FileNotFoundError, DataIndexDirError) as exc:
             if not o.unloadable:
                 raise
             o.retry_raised = exc
@@ -263,4 +313,8 @@ def classes_of(case, o):
         cl.append("dst-nonempty")
     if case.get("dst_state"):
         cl.append("dst-has-state")
+    if getattr(o, "via_push", False):
+        cl.append("via=index-push")
+    if getattr(o, "wiped", False):
+        cl.append("dst-wiped-index-kept" if case["index"] else "dst-wiped")
     return cl
